@@ -22,6 +22,14 @@
                     early exit or exhaustion — holds the answer Python list semantics gives on
                     `src` (this is C12's cache/history independence in its strongest form).
 
+  ASSUMPTION of every statement below: the underlying generator (`self._iter()`) never raises anything
+  but StopIteration — `next(gen)` on line 138 either yields the next value of the finite list `src`
+  or ends.  A generator that raises (e.g. a set holding a naive and an aware date) is outside the
+  model; there the real cached object differs from the uncached one afterwards (it ends up as a
+  complete EMPTY sequence, and the second operation raises the TypeError at `i < self._len` that
+  `safety` excludes under the assumption): known finding D-C11-genraise, checked by the oracle case
+  `generator_raises`.
+
   On the tree before fix a459cd4 (no `finally: release()`), the same model has a reachable
   deadlock; the harness keeps replaying that schedule on the implementation (c11.py sample).
 -/
@@ -124,21 +132,22 @@ theorem exec_bound {src qs} (l : List Tid) {s s'} (h : Reachable src qs s) (he :
 /-- **finished_answer.** Whatever the schedule, a finished thread holds exactly the answer of
     Python list semantics on `src` — fast path or generator path, early exit or exhaustion. -/
 theorem finished_answer {src qs s} (h : Reachable src qs s) (hsorted : Sorted src)
-    (t : Tid) (it : Iter) (hit : s.its[t]? = some it) (hd : it.pc = .done) :
+    (t : Tid) (it : Iter) (hit : s.its[t]? = some it) (hd : it.pc = .done) (hsmall : small it.q = true) :
     it.res = some (spec it.q src) ∧ (it.q = .iterAll → it.yielded = src) := by
   obtain ⟨hi, hsrc⟩ := reachable_inv h
   obtain ⟨_, hl⟩ := hi.linv t it hit
   rw [hd] at hl
   simp only [] at hl
   rw [hsrc] at hl
-  exact ⟨hl.2.2 hsorted, hl.2.1⟩
+  exact ⟨hl.2.2 hsorted hsmall, hl.2.1⟩
 
 /-- **all_complete.** A state where no thread can move — reached by every execution that keeps
     choosing enabled threads, after at most `measure (init src qs)` statements — has every thread
     finished; plain iterators have received exactly `src`, queries hold the specified answer. -/
 theorem all_complete {src qs s} (h : Reachable src qs s) (hstuck : ∀ t, step s t = none)
     (t : Tid) (it : Iter) (hit : s.its[t]? = some it) :
-    it.pc = .done ∧ (it.q = .iterAll → it.yielded = src) ∧ (Sorted src → it.res = some (spec it.q src)) := by
+    it.pc = .done ∧ (it.q = .iterAll → it.yielded = src) ∧
+    (Sorted src → small it.q = true → it.res = some (spec it.q src)) := by
   have hall : ∀ (t : Tid) (it : Iter), s.its[t]? = some it → it.pc = .done := by
     intro t it hit
     by_cases hd : it.pc = .done
@@ -146,7 +155,7 @@ theorem all_complete {src qs s} (h : Reachable src qs s) (hstuck : ∀ t, step s
     · obtain ⟨t', ht'⟩ := no_deadlock h ⟨t, it, hit, hd⟩
       rw [hstuck t'] at ht'; cases ht'
   have hd := hall t it hit
-  exact ⟨hd, fun hq => (finished_answer_aux h t it hit hd).1 hq, fun hs => (finished_answer h hs t it hit hd).1⟩
+  exact ⟨hd, fun hq => (finished_answer_aux h t it hit hd).1 hq, fun hs hq => (finished_answer h hs t it hit hd hq).1⟩
 where
   finished_answer_aux {src qs s} (h : Reachable src qs s) (t : Tid) (it : Iter) (hit : s.its[t]? = some it)
       (hd : it.pc = .done) : (it.q = .iterAll → it.yielded = src) ∧ True := by
